@@ -7,3 +7,5 @@ require github.com/open2b/scriggo v0.0.0
 require gopkg.in/yaml.v3 v3.0.1 // indirect
 
 replace github.com/open2b/scriggo => /repo
+
+require github.com/yuin/goldmark v1.7.16
